@@ -140,22 +140,30 @@ stats["format4_block"] = N // 2
 # ---------------------------------------------------------------- TR-31 key padding
 for v in "ABCD":
     bs = 16 if v == "D" else 8
-    rows_by_len = {}
+    groups = {}
     for _ in range(N):
         kbpk = gen.randbytes(16)
-        kl = gen.choice([8, 16, 24])
+        kl = gen.choice([8, 16, 24, 6, 14, 22, 30])
         key = gen.randbytes(kl)
-        mask = gen.choice([None, None, 32])
-        kb, drawn, same = monitored(tr31.wrap, kbpk, v + "0000P0TE00N0000", key, mask)
+        mask = gen.choice([None, None, 32, 22, 30, 14, 46])
+        alg = gen.choice("TTAHR")        # H, R: no default mask, so 2 + len(key) can be block-aligned
+        kb, drawn, same = monitored(tr31.wrap, kbpk, v + "0000P0" + alg + "E00N0000", key, mask)
         clear = o.tr31_clear(kbpk, kb)
         pad = clear[2 + kl:]
         if int.from_bytes(clear[:2], "big") != 8 * kl or clear[2:2 + kl] != key:
             viol.append({"what": "TR-31 %s: clear key data does not start with length + key" % v})
         if drawn < len(pad) or not same:
             viol.append({"what": "TR-31 %s: %d padding bytes but %d OS bytes drawn; random state unchanged: %s" % (v, len(pad), drawn, same)})
-        rows_by_len.setdefault(len(pad), []).append(pad)
-    for ln, rows in rows_by_len.items():
-        bit_freq_check("TR-31 %s key padding (%d bytes)" % (v, ln), rows)
+        # the whole pad must be random: look at its head and at its tail, separately for the case where the key
+        # data was already block-aligned (a full extra block of padding) and the ordinary case
+        m = max(kl, {"T": 24, "D": 24, "A": 32}.get(alg, kl) if mask is None else mask)
+        aligned = (2 + m) % bs == 0
+        groups.setdefault(("aligned" if aligned else "ordinary", "head"), []).append(pad[:1])
+        if len(pad) >= bs:
+            groups.setdefault(("aligned" if aligned else "ordinary", "tail%d" % bs), []).append(pad[-bs:])
+        groups.setdefault(("all", "tail1"), []).append(pad[-1:])
+    for (cls, part), rows in groups.items():
+        bit_freq_check("TR-31 %s key padding (%s, %s)" % (v, cls, part), rows)
     stats["tr31_" + v] = N
 # ---------------------------------------------------------------- freshness of sequences
 for name, thunk in call_sequences():
